@@ -1,20 +1,29 @@
 //! C03 — "No received frame sequence can panic, hang or wedge the interface".
 //!
-//! Bounded-exhaustive input enumeration (E2) + BFS over frame/time sequences (E1), on three real
-//! `Interface`s (Ethernet, raw IP, IEEE 802.15.4/6LoWPAN) with TCP (LISTEN / SYN-SENT /
-//! ESTABLISHED), UDP, ICMP (Ident / Udp / Tcp endpoints), raw, DNS (pending query) and DHCPv4
-//! sockets. See `run()` for the domains; `frames/seeds.rs` for the seed catalogue;
-//! `frames/world.rs` for the world, the application model and the trailing probe.
+//! Bounded-exhaustive input enumeration (E2) + BFS / scripted frame-and-time sequences (E1), on
+//! real `Interface`s of the three media (Ethernet, raw IP, IEEE 802.15.4/6LoWPAN) with TCP
+//! (LISTEN / SYN-SENT / ESTABLISHED), UDP, ICMP (Ident / Udp / Tcp endpoints), raw, DNS (pending
+//! query) and DHCPv4 sockets. World configurations per medium: A (plain), B (raw sockets, SLAAC,
+//! IPv6 peers, DHCP requesting), C (application has close()d the established connection:
+//! FIN-WAIT-1), and A with an IPv4-only / IPv6-only / empty address list (Ethernet, IP; 802.15.4:
+//! empty). See `run()` for the domains; `frames/seeds.rs` for the seed catalogue;
+//! `frames/world.rs` for the world, the application model and the trailing probes.
 //!
-//! Oracle, per injected frame / per BFS state (it demands exactly what the statement says):
+//! Oracle, per injected frame / per sequence (it demands exactly what the statement says):
 //!  (1) `Interface::poll` returns: no panic (catch_unwind) and no hang (deterministic device
 //!      call counter inside the poll + a coarse wall-clock watchdog for loops that never touch
 //!      the device);
-//!  (2) afterwards the interface still answers well-formed requests (an unfragmented echo, then - 61 s later, when every reassembly slot must have timed out - an echo request in two fragments): the prober (re-)teaches
-//!      its link-layer address (ARP request / neighbor solicitation) and sends an ICMP echo
-//!      request to an address the interface owns at that moment; an echo reply must come out.
-//!      IPv6 is always probed; IPv4 whenever the interface currently has a usable IPv4 subnet
-//!      (DHCP may legitimately have changed or removed the address: the probe adapts).
+//!  (2) afterwards the interface still answers well-formed requests. The prober (re-)teaches
+//!      its link-layer address (ARP request / neighbor solicitation) and sends
+//!      (i)   an ICMP echo request to an address the interface owns at that moment (IPv6 always,
+//!            IPv4 whenever there is a usable IPv4 subnet: DHCP may legitimately have changed
+//!            or removed the address, and some worlds have no address of a family at all);
+//!      (ii)  61 s later - every reassembly slot must have timed out by then - an echo request
+//!            sent in two fragments (IPv4 fragments resp. 6LoWPAN FRAG1/FRAGN);
+//!      (iii) on 802.15.4, after idle polls that let the single egress fragmentation buffer
+//!            drain, a 200-octet echo request whose REPLY needs 6LoWPAN fragmentation; all
+//!            fragments of the reply must come out and reassemble to the echo.
+//!      Each must be answered; what is not applicable in a world (no address) is skipped.
 
 mod pkt;
 mod seeds;
@@ -133,6 +142,9 @@ fn probe_viol(cfg: Cfg, p: &ProbeResult, ctx: &str) -> Option<Viol3> {
     if p.frag == Some(false) {
         dead.push(if cfg.medium == Medium::Ieee802154 { "6lowpan-fragmented-echo" } else { "v4-fragmented-echo" });
     }
+    if p.large == Some(false) {
+        dead.push("6lowpan-large-echo(fragmented-reply)");
+    }
     if dead.is_empty() {
         return None;
     }
@@ -189,7 +201,7 @@ fn run_events(cfg: Cfg, evs: &[Ev], want_log: bool) -> RunOut {
     }
     let p = w.probe();
     if want_log {
-        log.push(format!("probe: v6={:?} v4={:?} fragmented={:?} outcome={:?} {:?}", p.v6, p.v4, p.frag, p.outcome, p.log));
+        log.push(format!("probe: v6={:?} v4={:?} fragmented={:?} large={:?} outcome={:?} {:?}", p.v6, p.v4, p.frag, p.large, p.outcome, p.log));
         if !w.app_panics.is_empty() {
             log.push(format!("socket API panics in the application model: {:?}", w.app_panics));
         }
@@ -626,6 +638,7 @@ fn prepare(cfg: Cfg, ex: &mut Explored) -> Option<Base> {
         });
         match iss {
             Some(i) => learned.listen_iss = i,
+            None if cfg.addrs == 3 => {}
             None => ex.machinery.push(format!("[{}] could not learn the listening socket's ISS (no SYN-ACK to the edge SYN)", cfg.name())),
         }
     }
@@ -656,7 +669,8 @@ fn units_of(base: &Base, tier: Tier) -> Vec<Unit> {
         for pos in positions(seed) {
             units.push(Unit::Byte(si, pos));
         }
-        if tier == Tier::Thorough {
+        // (pair mutants only in the fully addressed worlds: they are the bulk of the work)
+        if tier == Tier::Thorough && base.cfg.addrs == 0 {
             for p1 in 0..seed.frame.len().min(PAIR_HEAD).saturating_sub(1) {
                 units.push(Unit::Pair(si, p1));
             }
@@ -853,7 +867,15 @@ fn all_cfgs() -> Vec<Cfg> {
     let mut v = vec![];
     for medium in [Medium::Ethernet, Medium::Ip, Medium::Ieee802154] {
         for variant in [0u8, 1, 2] {
-            v.push(Cfg { medium, variant, join_154: false });
+            v.push(Cfg { medium, variant, join_154: false, addrs: 0 });
+        }
+        // the interface's address configuration is part of "any configuration": IPv4-only,
+        // IPv6-only and unaddressed interfaces (802.15.4 is IPv6-only to begin with)
+        for addrs in [1u8, 2, 3] {
+            if medium == Medium::Ieee802154 && addrs != 3 {
+                continue;
+            }
+            v.push(Cfg { medium, variant: 0, join_154: false, addrs });
         }
     }
     v
@@ -876,7 +898,7 @@ fn explore(tier: Tier) -> Explored {
     // violation as worded (no frame was received): it is recorded as a note, and the frame
     // exploration of the 802.15.4 medium runs without the joined group.
     {
-        let cfg = Cfg { medium: Medium::Ieee802154, variant: 0, join_154: true };
+        let cfg = Cfg { medium: Medium::Ieee802154, variant: 0, join_154: true, addrs: 0 };
         let r = run_events(cfg, &[], false);
         if let Some(e) = r.setup_err {
             ex.notes.push(format!("[{}] outside C03 (no frame received): {}", cfg.name(), e));
@@ -990,6 +1012,20 @@ fn explore(tier: Tier) -> Explored {
                 }
             }
         }
+        // frames whose reply needs egress fragmentation, delivered in consecutive polls (no
+        // idle poll in between): every pair, triple and quadruple
+        let big: Vec<&Seed> = base.seeds.iter().filter(|s| s.name.contains("big-reply/")).collect();
+        for a in &big {
+            for b in &big {
+                scripts.push(vec![Ev::Frame(a.frame.clone()), Ev::Frame(b.frame.clone())]);
+                for c in &big {
+                    scripts.push(vec![Ev::Frame(a.frame.clone()), Ev::Frame(b.frame.clone()), Ev::Frame(c.frame.clone())]);
+                    for d in &big {
+                        scripts.push(vec![Ev::Frame(a.frame.clone()), Ev::Frame(b.frame.clone()), Ev::Frame(c.frame.clone()), Ev::Frame(d.frame.clone())]);
+                    }
+                }
+            }
+        }
         // the host sleeps (no poll) and then receives any seed frame: every timer, cache entry,
         // lease and reassembly slot is met at an instant far beyond its deadline by a FRAME,
         // not by an idle poll; also with the same frame before the sleep (state it created is
@@ -1039,7 +1075,8 @@ fn explore(tier: Tier) -> Explored {
 
 pub fn run(tier: Tier) -> i32 {
     let mut rep = Report::new("C03", tier);
-    rep.assumptions.push("bounds: single-frame pass = every seed of the catalogue, every truncation, every single byte of the first 96 bytes (+ DHCP option area, NDISC/DNS message tails, whole 802.15.4 frames) set to the boundary set {0,1,7,8,0x0f,0x28,0x2f,0x3f,0x40,0x7f,0x80,0xf0,0xff,orig^1} (quick) or to all 256 values (thorough), each raw and with all locatable checksums recomputed; thorough adds every pair of positions in the first 40 bytes x every pair of values from {0,1,7,8,0x0f,0x3f,0x40,0x7f,0x80,0xf0,0xff} (checksums recomputed) and all byte strings of length <= 2 (quick: first byte from the boundary set); sequences = BFS to depth 2 (quick) / 3 (thorough) over one representative frame per distinct observable effect (reply classes x changed components) + time advances {0, 1 s, 61 s}; thorough additionally depth 2 over one representative per (effect, seed); lone-fragment seeds and the TCP sequence-space edge seeds (handshake segments placing RCV.NXT at 2^31-0x100, 2^31-0x20, 2^31-1, 2^31 and the same below 2^32, with their follow-up segments) are pinned into the alphabets, every handshake x follow-up x follow-up triple, and every handshake (or, in the variant C worlds, the application's close()) followed by a silence of 61 / 62 / 63 / 64 s and a late segment, or by a clock jump WITHOUT a poll of 2^30, 2^31-1, 2^31, 2^32-1, 2^32, 2^33 or 2^40 ms and a late segment, is run as a scripted sequence; every seed frame is also run after such a clock jump, alone and preceded by itself before the jump; ICMPv4/ICMPv6 error messages are seeded with their quotation cut to every length (outer lengths and checksums consistent); BFS levels are cut by a wall-clock budget only with exhaustive=false reported".into());
+    rep.assumptions.push("bounds: single-frame pass = every seed of the catalogue, every truncation, every single byte of the first 96 bytes (+ DHCP option area, NDISC/DNS message tails, whole 802.15.4 frames) set to the boundary set {0,1,7,8,0x0f,0x28,0x2f,0x3f,0x40,0x7f,0x80,0xf0,0xff,orig^1} (quick) or to all 256 values (thorough), each raw and with all locatable checksums recomputed; thorough adds every pair of positions in the first 40 bytes x every pair of values from {0,1,7,8,0x0f,0x3f,0x40,0x7f,0x80,0xf0,0xff} (checksums recomputed) and all byte strings of length <= 2 (quick: first byte from the boundary set); sequences = BFS to depth 2 (quick) / 3 (thorough) over one representative frame per distinct observable effect (reply classes x changed components) + time advances {0, 1 s, 61 s}; thorough additionally depth 2 over one representative per (effect, seed); lone-fragment seeds and the TCP sequence-space edge seeds (handshake segments placing RCV.NXT at 2^31-0x100, 2^31-0x20, 2^31-1, 2^31 and the same below 2^32, with their follow-up segments) are pinned into the alphabets, every handshake x follow-up x follow-up triple, and every handshake (or, in the variant C worlds, the application's close()) followed by a silence of 61 / 62 / 63 / 64 s and a late segment, or by a clock jump WITHOUT a poll of 2^30, 2^31-1, 2^31, 2^32-1, 2^32, 2^33 or 2^40 ms and a late segment, is run as a scripted sequence; every seed frame is also run after such a clock jump, alone and preceded by itself before the jump; ICMPv4/ICMPv6 error messages are seeded with their quotation cut to every length (outer lengths and checksums consistent); on 802.15.4 single frames whose reply needs 6LoWPAN fragmentation are pinned and all their pairs / triples / quadruples are delivered in consecutive polls; BFS levels are cut by a wall-clock budget only with exhaustive=false reported".into());
+    rep.assumptions.push("world configurations: per medium A, B, C (see module header) and A with IPv4-only / IPv6-only / empty address list; the address-restricted worlds get the complete single-frame pass (thorough: without the pair mutants) and the same sequences; where a world has no address of a family the corresponding probe is not applicable (an unaddressed interface is only held to oracle (1))".into());
     rep.assumptions.push("every injected frame meets a FRESH world in the base state and is followed by the probe; pair mutants and 2-byte raw frames get oracle (1)+(2) only (they are not fingerprinted, so they do not count in 'changed state')".into());
     rep.assumptions.push("the application model reads and discards received data after every poll and applies DHCP configuration events (IPv4 address, default route) like examples/dhcp_client.rs; trusted: harness frame builders, independent reply classifier".into());
     rep.assumptions.push("the 802.15.4 worlds used for frame exploration have no joined multicast group (joining one makes the very first poll panic before any frame is received: recorded under notes_outside_C03, not as a violation) and no IPv4; overflow-checks are ON in this profile, so arithmetic overflow on attacker-controlled lengths is observed as a panic".into());
@@ -1047,7 +1084,7 @@ pub fn run(tier: Tier) -> i32 {
 
     if std::env::var("VERIF_C03_SELFTEST").as_deref() == Ok("hang") {
         // self-test of the deterministic hang detector
-        let mut w = World::new(Cfg { medium: Medium::Ip, variant: 0, join_154: false }).unwrap();
+        let mut w = World::new(Cfg { medium: Medium::Ip, variant: 0, join_154: false, addrs: 0 }).unwrap();
         w.dev.spin = true;
         println!("selftest: {:?}", w.poll());
         return 0;
